@@ -81,9 +81,14 @@ def worker_env(pid, boundscheck, thash):
 class Worker:
     """One worker subprocess speaking a line protocol over pipes."""
 
-    def __init__(self, pid, env, errpath, pyopt=False):
+    def __init__(self, pid, env, errpath, pyopt=False, nojit=False):
         self.err = open(errpath, "ab")
         self.pyopt = bool(pyopt)
+        self.nojit = bool(nojit)
+        if nojit:
+            # nojit: numba's documented switch NUMBA_DISABLE_JIT=1 (the kernels run as plain
+            # Python - debugger / coverage runs), for the cases that ask for it
+            env = dict(env, NUMBA_DISABLE_JIT="1")
         # pyopt: the interpreter mode `python -O` (assert statements compiled away), for the
         # cases that ask for it - a validation written as an assert vanishes there
         self.proc = subprocess.Popen(
@@ -176,8 +181,8 @@ def run_pool(pid, cases, env, workdir, nworkers, default_timeout, startup=240.0,
         errpath = os.path.join(workdir, "worker-%d.err" % k)
         w = None
 
-        def fresh_worker(pyopt=False):
-            ww = Worker(pid, env, errpath, pyopt)
+        def fresh_worker(pyopt=False, nojit=False):
+            ww = Worker(pid, env, errpath, pyopt, nojit)
             msg = ww.recv(startup)
             if not (isinstance(msg, dict) and msg.get("ready")):
                 ww.kill()
@@ -190,10 +195,11 @@ def run_pool(pid, cases, env, workdir, nworkers, default_timeout, startup=240.0,
             except queue.Empty:
                 break
             for case in chunk:
-                if w is None or case.get("fresh") or w.pyopt != bool(case.get("pyopt")):
+                if w is None or case.get("fresh") or w.pyopt != bool(case.get("pyopt")) \
+                        or w.nojit != bool(case.get("nojit")):
                     if w is not None:
                         w.close()
-                    w, bad = fresh_worker(bool(case.get("pyopt")))
+                    w, bad = fresh_worker(bool(case.get("pyopt")), bool(case.get("nojit")))
                     if w is None:
                         with lock:
                             results.append({
